@@ -77,7 +77,15 @@ ApiTableBase(D) ==
   ( "domains.New" :> Row("domain", FALSE, <<"domains.New">>, <<1>>) ) @@
   ( "domains.Handled" :> Row("domain", FALSE, <<"domains.Handled">>, <<1>>) ) @@
   ( "domains.PackageDomain" :> Row("domain", FALSE, <<"domains.PackageDomain">>, <<1>>) ) @@
-  ( "domains.PackageDomainAtDepth" :> Row("domain", TRUE, <<>>, <<>>) )
+  ( "domains.PackageDomainAtDepth" :> Row("domain", TRUE, <<>>, <<>>) ) @@
+  \* the constructors of grpc/status (Error / Errorf used to call errors.New / Newf without
+  \* a depth: deviation GrpcStatusNewNoDepth, the stack began at status.Error itself)
+  ( "status.Error" :> Row("stack", FALSE, <<"status.Error", "errors.NewWithDepth", "errutil.NewWithDepth">>,
+                          IF "GrpcStatusNewNoDepth" \in D THEN <<0, 1, 1>> ELSE <<1, 1, 1>>) ) @@
+  ( "status.Errorf" :> Row("stack", FALSE, <<"status.Errorf", "errors.NewWithDepthf", "errutil.NewWithDepthf">>,
+                           IF "GrpcStatusNewNoDepth" \in D THEN <<0, 1, 1>> ELSE <<1, 1, 1>>) ) @@
+  ( "status.WrapErr" :> Row("stack", FALSE, <<"status.WrapErr", "errors.WrapWithDepth", "errutil.WrapWithDepth">>, <<1, 1, 1>>) ) @@
+  ( "status.WrapErrf" :> Row("stack", FALSE, <<"status.WrapErrf", "errors.WrapWithDepthf", "errutil.WrapWithDepthf">>, <<1, 1, 1>>) )
 
 \* argument variants that take another path inside the same functions (empty
 \* message or format, %w and error operands, nil operands): same chain, same attribution
